@@ -22,9 +22,15 @@ def main(pid, path):
         c = next(x for x in m.M.contracts if x.key == rec["function"])
         fn = c.native_fn or native.resolve_callable(c)
         inp = rec["failure"]["input"]
+        idx = rec["failure"].get("input_index")
+        if idx is not None and c.native_inputs is not None:
+            # regenerate the input (it may contain live objects that JSON cannot carry); generators are deterministic
+            import itertools
+            inp = next(itertools.islice(c.native_inputs(), idx, idx + 1), inp)
         r = native.check_case(c, fn, inp, vars(m))
         print("input:", json.dumps(inp, default=str)[:2000])
         print("result:", "contract holds now" if r is None else json.dumps(r, default=str)[:2000])
+        print("holds now:" if r is None else "STILL FAILS")
         return 0 if r is None else 1
     print("obligation-level record (no concrete input):")
     print(json.dumps(rec, indent=1, default=str)[:4000])
